@@ -976,3 +976,115 @@ func init() {
 		}
 	})
 }
+
+// ---------------------------------------------------------------- addresses of package-level variables
+
+// globalAddrEscapes: a pointer to a package-level variable that is stored into an object, returned, boxed or handed to
+// arbitrary code makes that variable a cell shared by every schema/transform holding the pointer: whoever writes through
+// it (encoding/json does, when it decodes into a non-nil pointer field) changes the value for all of them (seed C18-7:
+// a "default encoding" pointer shared by all schemas). In library code outside package initialisers the address of a
+// package-level variable may only be used to load it, to store it directly, or as the receiver/argument of sync and
+// sync/atomic operations.
+func globalAddrEscapes(c *core.Ctx, rule string) {
+	c.SSA()
+	n := 0
+	for _, f := range c.RepoFunctions() {
+		if core.IsCLIOrSample(core.FuncPkg(f)) {
+			continue
+		}
+		isInit := false
+		for g := f; g != nil; g = g.Parent() {
+			if (g.Synthetic != "" && g.Name() == "init") || (strings.HasPrefix(g.Name(), "init#") && g.Signature.Recv() == nil) {
+				isInit = true
+			}
+		}
+		if isInit {
+			continue
+		}
+		for _, b := range f.Blocks {
+			for _, in := range b.Instrs {
+				for _, op := range in.Operands(nil) {
+					g, ok := (*op).(*ssa.Global)
+					if !ok || !core.InRepo(g.Pkg.Pkg) || strings.HasSuffix(g.Name(), "$guard") {
+						continue
+					}
+					how := ""
+					switch x := in.(type) {
+					case *ssa.UnOp:
+						if x.Op == token.MUL {
+							continue
+						}
+						how = "is used by a unary operation"
+					case *ssa.Store:
+						if x.Addr == ssa.Value(g) {
+							continue
+						}
+						how = "is stored into memory"
+					case *ssa.FieldAddr, *ssa.IndexAddr:
+						// address of a part of the variable: fine when only loaded/stored directly
+						esc := false
+						for _, r := range core.Referrers(in.(ssa.Value)) {
+							switch y := r.(type) {
+							case *ssa.UnOp:
+							case *ssa.Store:
+								if y.Val == in.(ssa.Value) {
+									esc = true
+								}
+							case *ssa.DebugRef:
+							default:
+								esc = true
+							}
+						}
+						if !esc {
+							continue
+						}
+						how = "has the address of one of its parts taken and passed on"
+					case ssa.CallInstruction:
+						o := core.CalleeObj(x)
+						if o != nil && o.Pkg() != nil && (o.Pkg().Path() == "sync/atomic" || o.Pkg().Path() == "sync") {
+							continue
+						}
+						how = "is passed to " + x.Common().String()
+					case *ssa.MakeInterface:
+						how = "is boxed into an interface value"
+					case *ssa.Return:
+						how = "is returned"
+					case *ssa.Phi:
+						how = "flows into a pointer variable"
+					case *ssa.DebugRef:
+						continue
+					default:
+						how = fmt.Sprintf("is used by %T", in)
+					}
+					n++
+					c.Bad(rule, core.FuncKey(f)+" lets the address of global "+g.Name()+" escape", core.InstrPos(in), "the address of package-level variable "+g.Name()+" "+how+": every object that ends up holding this pointer shares one cell, and a write through any of them (e.g. a decoder filling a pointer field) changes what all the others read")
+				}
+			}
+		}
+	}
+	c.OK(rule, "addresses of package-level variables stay local", 0, fmt.Sprintf("%d escaping use(s) of the address of a package-level variable in library code outside initialisers", n))
+}
+
+func init() {
+	wrapRun("C14", func(c *core.Ctx) {
+		if c.CountRule("R14f") == 0 {
+			globalAddrEscapes(c, "R14f")
+		}
+	})
+	wrapRun("C18", func(c *core.Ctx) {
+		if c.CountRule("R18e") == 0 {
+			globalAddrEscapes(c, "R18e")
+		}
+	})
+}
+
+func init() {
+	wrapRun("C13", func(c *core.Ctx) {
+		// R13g: the compiled-expression cache is invisible only if the cached path compiles exactly the string the
+		// uncached path compiles (= C11 R11f; seed C13-8 normalised whitespace on the cached path only)
+		if c.CountRule("R13g") == 0 {
+			importRules(c, "C11", map[string]string{"R11f": "R13g"})
+			c.Floor("R13g", 3, "loadXPathExpr (2) + stream-reader constructors")
+		}
+	})
+}
